@@ -143,13 +143,13 @@ def _parse_pdb_conect_line(line):
     # 17 - 21       Integer        serial       Serial number of bonded atom
     # 22 - 26       Integer        serial       Serial number of bonded atom
     # 27 - 31       Integer        serial       Serial number of bonded atom
-    iatom0 = int(line[6:11]) - 1
+    serial0 = int(line[6:11])
     for ipos in 11, 16, 21, 26:
         serial_str = line[ipos : ipos + 5].strip()
         if serial_str != "":
-            iatom1 = int(serial_str) - 1
-            if iatom1 > iatom0:
-                yield iatom0, iatom1
+            serial1 = int(serial_str)
+            if serial1 > serial0:
+                yield serial0, serial1
 
 
 @document_load_one("PDB", ["atcoords", "atnums", "atffparams", "extra"], ["title", "bonds"])
@@ -166,6 +166,8 @@ def load_one(lit: LineIterator) -> dict:
     occupancies = []
     bfactors = []
     bonds = []
+    # Serial numbers of the atoms are not always consecutive, e.g. a TER record takes one.
+    serials = {}
     molecule_found = False
     end_reached = False
     while True:
@@ -182,6 +184,7 @@ def load_one(lit: LineIterator) -> dict:
             (atnum, attype, restype, chainid, resnum, atcoord, occupancy, bfactor) = (
                 _parse_pdb_atom_line(line, lit)
             )
+            serials[int(line[6:11])] = len(atnums)
             atnums.append(atnum)
             attypes.append(attype)
             restypes.append(restype)
@@ -192,8 +195,8 @@ def load_one(lit: LineIterator) -> dict:
             bfactors.append(bfactor)
             molecule_found = True
         if line.startswith("CONECT"):
-            for iatom0, iatom1 in _parse_pdb_conect_line(line):
-                bonds.append([iatom0, iatom1, bond2num["un"]])
+            for serial0, serial1 in _parse_pdb_conect_line(line):
+                bonds.append([serials[serial0], serials[serial1], bond2num["un"]])
         if line.startswith("END") and molecule_found:
             end_reached = True
             break
